@@ -10,7 +10,7 @@ use smoltcp::iface::SocketHandle;
 use smoltcp::phy::Medium;
 use smoltcp::socket::{dhcpv4, dns, icmp, raw, tcp, udp};
 use smoltcp::time::Duration;
-use smoltcp::wire::{DnsQueryType, IpAddress, IpCidr, IpEndpoint, IpListenEndpoint, IpProtocol, IpVersion, Ipv4Address};
+use smoltcp::wire::{DnsQueryType, IpAddress, IpCidr, IpEndpoint, IpListenEndpoint, IpProtocol, IpVersion};
 use std::collections::BTreeSet;
 
 pub const OFF4: [u8; 4] = [10, 1, 2, 3];
@@ -100,6 +100,12 @@ fn alias_last_echo(m: Medium, v6: bool, v: usize) -> Option<Tweak> {
 }
 fn alias_last_4(m: Medium, v6: bool, v: usize) -> Option<Tweak> {
     if v == 4 && !v6 {
+        return None;
+    }
+    std_setup(m, v6, v)
+}
+fn unknown_proto_setup(m: Medium, v6: bool, v: usize) -> Option<Tweak> {
+    if v == 2 && !v6 {
         return None;
     }
     std_setup(m, v6, v)
@@ -362,7 +368,18 @@ fn sc_udp_closed_port(rig: &mut Rig, v6: bool, variant: usize) {
 
 fn sc_unknown_proto(rig: &mut Rig, v6: bool, variant: usize) {
     rig.teach_neighbors();
-    let (src, dst) = if variant == 0 { (peer(v6), me(v6)) } else if v6 { (peer(v6), ALL_NODES6.to_vec()) } else { (peer(v6), vec![255; 4]) };
+    // variant 2 (IPv6 only): the packet is handed to us by the link (our hardware address) but
+    // its IP destination is another host on the link
+    let other6: Vec<u8> = vec![0xfe, 0x80, 0, 0, 0, 0, 0, 0, 0, 0, 0, 0, 0, 0, 1, 1];
+    let (src, dst) = if variant == 0 {
+        (peer(v6), me(v6))
+    } else if variant == 2 {
+        (peer(v6), other6)
+    } else if v6 {
+        (peer(v6), ALL_NODES6.to_vec())
+    } else {
+        (peer(v6), vec![255; 4])
+    };
     let mut sizes = payload_sizes(rig, v6, 0);
     sizes.retain(|&n| n + hdr(v6) <= 1500);
     for (i, n) in sizes.into_iter().enumerate() {
@@ -373,12 +390,15 @@ fn sc_unknown_proto(rig: &mut Rig, v6: bool, variant: usize) {
         inject_from_peer(rig, &p, 0x300 + i as u16);
     }
     if v6 {
-        // hop-by-hop option of type 0x80 | x: "discard and send parameter problem"
-        let hbh = ext_hdr(17, &[0x80, 2, 1, 2]);
-        let mut pl = hbh;
-        pl.extend_from_slice(&udp(&src, &dst, 4000, 7000, b"xy"));
-        let p = ipv6(&src, &dst, 0, 64, &pl);
-        inject_from_peer(rig, &p, 0x3ff);
+        // hop-by-hop options whose type says "discard and send a parameter problem"
+        // (10xxxxxx: always, 11xxxxxx: unless the destination is multicast)
+        for (k, ty) in [0x80u8, 0x9e, 0xc2].into_iter().enumerate() {
+            let hbh = ext_hdr(17, &[ty, 2, 1, 2]);
+            let mut pl = hbh;
+            pl.extend_from_slice(&udp(&src, &dst, 4000, 7000, b"xy"));
+            let p = ipv6(&src, &dst, 0, 64, &pl);
+            inject_from_peer(rig, &p, 0x3f0 + k as u16);
+        }
     }
 }
 
@@ -1078,7 +1098,7 @@ pub fn scenarios() -> Vec<Scenario> {
         Scenario { name: "icmp-socket-echo-request", variants: 2, setup: std_setup, run: sc_icmp_echo_out },
         Scenario { name: "echo-request-in", variants: 6, setup: alias_last_echo, run: sc_echo_in },
         Scenario { name: "udp-to-closed-port", variants: 5, setup: alias_last_4, run: sc_udp_closed_port },
-        Scenario { name: "unknown-protocol-in", variants: 2, setup: std_setup, run: sc_unknown_proto },
+        Scenario { name: "unknown-protocol-in", variants: 3, setup: unknown_proto_setup, run: sc_unknown_proto },
         Scenario { name: "tcp-to-closed-port", variants: 5, setup: alias_last_4, run: sc_tcp_closed },
         Scenario { name: "tcp-server", variants: 3, setup: std_setup, run: sc_tcp_server },
         Scenario { name: "tcp-client", variants: 4, setup: std_setup, run: sc_tcp_client },
@@ -1093,6 +1113,3 @@ pub fn scenarios() -> Vec<Scenario> {
         Scenario { name: "no-ipv6-address", variants: 2, setup: no_v6_setup, run: sc_no_v6_addr },
     ]
 }
-
-#[allow(dead_code)]
-fn _unused(_: Ipv4Address) {}
